@@ -1,0 +1,26 @@
+//go:build verif
+
+// Contracts checked by /verif/govc (comment-only file; see /verif/DESIGN.md, properties C27 and C33).
+package token
+
+//@ ginv_table tokens
+//@
+//@ func (Token).String
+//@   pure
+//@   ensures [spelling] tok < Token(len(tokens)) && tokens[tok] != "" ==> s == tokens[tok]
+//@   ensures [nonempty] len(s) > 0
+//@
+//@ func (Token).Len
+//@   pure
+//@   ensures [oplen] tok > ' ' && tok < Token(len(tokens)) ==> result == len(tokens[tok])
+//@   ensures [classes] tok <= ' ' ==> result == 0
+//@   ensures [nonneg] result >= 0
+//@
+//@ func ForEach
+//@   option pure_funcs yes
+//@   requires f != nil
+//@   assigns nothing
+//@
+//@ loop ForEach#1
+//@   invariant from >= 1
+//@   decreases int(operator_end) - int(from)
